@@ -34,6 +34,15 @@ Theorem C19_kind : forall st, reachable st ->
 Proof. exact kind_full. Qed.
 Print Assumptions C19_kind.
 
+(** readiness of a hosted shard is irrelevant: [il] is the ShardInfoList with ANY assignment of
+    Pending flags (a shard started a moment ago, a joining replica that has applied nothing yet):
+    every listed shard gets the kind of its type, only a shard id that is not listed the error *)
+Theorem C19_kind_readiness : forall st, reachable st ->
+  forall (il : list shard_info) s, Permutation (map fst il) (hosted st) ->
+    qres_of (support_regular_info il s) = spec_answer (hosted st) s.
+Proof. exact kind_readiness. Qed.
+Print Assumptions C19_kind_readiness.
+
 (** the executable run of the model (used by the correspondence check) answers every query of
     every event sequence - starts, stops, re-hosts, queries - as the specification does *)
 Theorem C19_kind_run : forall evs, run evs = spec_run [] evs.
@@ -215,6 +224,13 @@ Example C19_ex_defect_witness :
   support_regular [(1, Regular); (2, OnDisk)] 1 = Some true /\
   support_regular [(1, Regular); (2, OnDisk)] 9 = None.
 Proof. vm_compute. repeat split; reflexivity. Qed.
+
+(** readiness: an on-disk joining replica (pending) next to a ready regular shard and a pending
+    regular one; the seeded change C19-r3-m1 (skip pending entries) would answer None for 2 and 3 *)
+Example C19_ex_readiness :
+  map (support_regular_info [(1, Regular, false); (2, OnDisk, true); (3, Regular, true)]) [1; 2; 3; 9]
+  = [Some true; Some false; Some true; None].
+Proof. vm_compute. reflexivity. Qed.
 
 (** sessions: all-distinct field values survive, and the no-op test looks at the series id *)
 Example C19_ex_session :
